@@ -78,6 +78,7 @@ def harnesses(tier):
         hs.append({"id": "run/K%d/r1" % k, "params": {"kind": "run", "k": k, "regions": 1}, "timeout": 600 if k < 4 else 1800, "twin": k == 2})
     hs.append({"id": "run/K2/r2", "params": {"kind": "run", "k": 2, "regions": 2}, "timeout": 900})
     hs.append({"id": "run/K2/r2-other-contig", "params": {"kind": "run", "k": 2, "regions": 2, "other": True}, "timeout": 900})
+    hs.append({"id": "run/K2/r3-revisit-contig", "params": {"kind": "run", "k": 2, "regions": 3, "other": True}, "timeout": 1800})
     if tier == "thorough":
         hs.append({"id": "run/K3/r2", "params": {"kind": "run", "k": 3, "regions": 2}, "timeout": 2400})
         hs.append({"id": "run/K2/r3", "params": {"kind": "run", "k": 2, "regions": 3}, "timeout": 2400})
